@@ -6,6 +6,7 @@ import sys
 from .. import engine as E
 from .. import gen as G
 from ..oracle import M, P10, MODES, in_i128, OP_INT_TYPES, INT_TYPES
+from .. import knuth as K
 from . import arith as A
 from . import common as C
 
@@ -110,6 +111,64 @@ def constructed(rng):
         if a == 0 or b == 0 or abs(a) > M or abs(b) > M:
             continue
         add("divr", G.fD(sg(rng, a), p), G.fD(sg(rng, b), q), n)
+    # --- remainders at the widths of the primitive types (a remainder or partial quotient squeezed into a narrower
+    #     integer): dividend = t * divisor + half + delta, delta in +-{2^32, 2^63, j * 2^64, 2^96}, divisor-scaled branch
+    deltas = [1 << 32, 1 << 63, 1 << 64, 3 << 64, (1 << 64) * 12345, 1 << 96, (1 << 64) - 1, (1 << 64) + 1]
+    for _ in range(200):
+        n = rng.randrange(0, 17)
+        q = rng.randrange(0, 18 - n)
+        p = rng.randrange(n + q + 1, 19)
+        sh = p - n - q
+        if rng.random() < 0.5:
+            # divisor * 10^sh fits
+            b = rng.getrandbits(rng.randrange(66, 110)) + 1
+            if b * P10[sh] > M:
+                continue
+            dv = b * P10[sh]
+            t = rng.getrandbits(rng.randrange(0, 10))
+            base = t * dv + dv // 2
+        else:
+            # divisor * 10^sh overflows: quotient below 1
+            lo = M // P10[sh] + 1
+            hi = min(M, 2 * M // P10[sh])
+            if lo > hi:
+                continue
+            b = rng.randrange(lo, hi + 1)
+            base = b * (P10[sh] // 2)
+        for dl in deltas:
+            for sgn in (1, -1):
+                a = base + sgn * dl
+                if 0 < a <= M:
+                    add("divr", G.fD(sg(rng, a), p), G.fD(sg(rng, b), q), n)
+    # --- the upper 128-bit word of the wide dividend equals the divisor (+-1): quotient ~ 2^128, must signal
+    for _ in range(40):
+        k = rng.randrange(20, 37)
+        y = rng.randrange(1 << 64, min(P10[k] // 2, M) + 1)
+        for dy in (-1, 0, 1):
+            x = -((-(y + dy) << 128) // P10[k])
+            if not 0 < x <= M:
+                continue
+            # divr: k = n + q - p
+            for _try in range(5):
+                n = rng.randrange(0, 19)
+                q = rng.randrange(0, 19)
+                p = n + q - k
+                if 0 <= p <= 18:
+                    add("divr", G.fD(sg(rng, x), p), G.fD(sg(rng, y), q), n)
+                    break
+        # mulr: product's upper word equals 10^sh (sh >= 20)
+        shm = rng.randrange(20, 37)
+        for dd_ in (-1, 0, 1):
+            lo_, hi_ = (P10[shm] + dd_) << 128, (P10[shm] + dd_ + 1) << 128
+            pr = K.product_in(rng, lo_, hi_)
+            if pr:
+                for _try in range(5):
+                    p = rng.randrange(2, 19)
+                    q = rng.randrange(2, 19)
+                    n = p + q - shm
+                    if 0 <= n <= 18:
+                        add("mulr", G.fD(sg(rng, pr[0]), p), G.fD(sg(rng, pr[1]), q), n)
+                        break
     # --- the classic double-rounding witnesses, all shapes
     for n in range(0, 4):
         for a, p, bi in ((101, 2, 2), (-101, 2, 2), (1001, 3, 2), (5000001, 6, 10), (1, 18, 3), (-1, 18, 7),
